@@ -2,6 +2,8 @@
 import engine
 from world import World
 import scen_proto
+import scen_group
+import scen_state
 
 SHIPPED = ("shipped", "custom", "toyint", "toyed")
 
@@ -17,8 +19,23 @@ def std(gen, want=SHIPPED, batch=400):
     return f
 
 
+ALL = ("shipped", "custom", "toyint", "toyed", "edgen")
+
 REGISTRY = {
+    "C07": std(scen_state.gen_C07, ("shipped", "toyint", "toyed"), batch=3000),
+    "C08": std(scen_state.gen_C08),
+    "C09": std(scen_state.gen_C09),
+    "C10": std(scen_state.gen_C10),
+    "C16": std(scen_state.gen_C16, ("shipped", "toyint")),
+    "C05": std(scen_group.gen_C05),
+    "C12": std(scen_group.gen_C12, ("edgen",)),
+    "C13": std(scen_group.gen_C13, ("shipped", "toyint", "toyed")),
+    "C14": std(scen_group.gen_C14, ("shipped", "toyint", "toyed")),
+    "C15": std(scen_group.gen_C15, ("shipped", "toyint", "toyed")),
+    "C18": std(scen_group.gen_C18, ("shipped",)),
     "C01": std(scen_proto.gen_C01),
     "C02": std(scen_proto.gen_C02),
     "C03": std(scen_proto.gen_C03),
+    "C04": std(scen_proto.gen_C04),
+    "C06": std(scen_proto.gen_C06),
 }
